@@ -9,6 +9,23 @@ from typing import TypeVar
 T = TypeVar("T")
 
 
+def clamp_float(v: float, min: float, max: float) -> float:
+    """Brings the result of a float draw back into [min, max] and always returns a float.
+
+    `min + (max - min) * t` can leave the range by one ulp through rounding, and an integer bound
+    beyond 2**53 may have no exact float form (its nearest float can lie outside the range)."""
+    v = float(v)
+    if v > max:
+        v = float(max)
+        if v > max:
+            v = math.nextafter(v, -math.inf)
+    elif v < min:
+        v = float(min)
+        if v < min:
+            v = math.nextafter(v, math.inf)
+    return v
+
+
 class RandomSource(abc.ABC):
     @abc.abstractmethod
     def randint(self, min: int, max: int) -> int: ...
